@@ -91,6 +91,14 @@ def cycle_labels(view):
                 if lv and lv[0] == "v":
                     pv[lv[1]] = pv.get(lv[1], 0) + 1
     pvar = max(pv, key=pv.get) if pv else None
+    # the peak level is (variable + poff): poff = 0 in `for(p = last-1; p > top; --p)`, -1 in `for(pp = last; pp > top+1; --pp) { p = pp-1; ...`
+    offs = {}
+    for ev in evs.values():
+        lv = ev.get("level")
+        if lv and lv[0] == "v" and lv[1] == pvar:
+            offs[lv[2]] = offs.get(lv[2], 0) + 1
+    poff = max(offs, key=offs.get) if offs else 0
+    view.poff = poff
     labels = {}
     problems = []
     for e, ev in evs.items():
@@ -101,11 +109,12 @@ def cycle_labels(view):
         lv = ev.get("level")
         if lv == ("top", 0):
             ls = "top"
-        elif lv is not None and lv[0] == "v" and lv[1] == pvar and lv[2] == 0:
+        elif lv is not None and lv[0] == "v" and lv[1] == pvar and lv[2] == poff:
             ls = "p"
         elif lv is not None and lv[0] == "v" and lv[1] == pvar:
-            ls = "p%+d" % lv[2]
+            ls = "p%+d" % (lv[2] - poff)
         elif lv is None:
+            problems.append("level argument %s of %s is not a level expression (constant, _top_level, last level, or a variable plus a constant)" % (render(ev.get("level_node")), h))
             ls = "?" + render(ev.get("level_node"))
         else:
             ls = view.level_name(lv)
@@ -238,8 +247,48 @@ def for_shape(view, loop):
     return {"d": d, "var": var, "init": var.get("init"), "cond": cond, "step": step}
 
 
-def check_level_loop(ck, view, inst, event_ids, want_init, want_op, want_bound, want_step, what, param_level=None):
-    """the loop around the level events runs var from want_init while var <want_op> want_bound in steps of want_step"""
+def visited_levels(init, op, bound, step, where):
+    """canonical form of a counting level loop: (first visited level, last visited level, direction), or None.
+    `for(i = a; i < b; ++i)`, `i <= b-1`, `i != b`; `for(p = a; p > b; --p)`, `p >= b+1`; `for(i = a; i > b;) { --i; ...` (visits
+    a-1 .. b) are compared by the levels they visit, not by their spelling."""
+    if init is None or bound is None or abs(step) != 1:
+        return None
+    sh_ = lambda lv, k: lv[:-1] + (lv[-1] + k,)
+    if step == 1 and op in ("<", "<=", "!="):
+        first = init if where == "inc" else sh_(init, 1)
+        last = bound if op == "<=" else sh_(bound, -1)
+        if where != "inc":
+            last = sh_(last, 1)
+        return first, last, "ascending"
+    if step == -1 and op in (">", ">=", "!="):
+        first = init if where == "inc" else sh_(init, -1)
+        last = bound if op == ">=" else sh_(bound, 1)
+        if where != "inc":
+            last = sh_(last, -1)
+        return first, last, "descending"
+    return None
+
+
+LEVEL_OPERANDS = ("mat", "fil", "tra", "smoother", "cor", "def", "r", "x", "y", "vec", "fine", "coarse", "dst", "src", "a", "b")
+
+
+def event_level_offsets(evlist, d):
+    """offsets k of the levels `<variable d> + k` that the level operations of a helper touch"""
+    offs = set()
+    for e, ev in evlist or []:
+        for key in LEVEL_OPERANDS:
+            o = ev.get(key)
+            if isinstance(o, tuple) and len(o) >= 2 and isinstance(o[1], tuple) and o[1][0] == "v" and o[1][1] == d:
+                offs.add(o[1][2])
+        lv = ev.get("level") if ev.get("kind") == "helper" else None
+        if lv and lv[0] == "v" and lv[1] == d:
+            offs.add(lv[2])
+    return offs
+
+
+def check_level_loop(ck, view, inst, event_ids, want_init, want_op, want_bound, want_step, what, param_level=None, want_where="inc", evlist=None):
+    """the loop around the level events visits the same levels in the same order as
+    `for(var = want_init; var <want_op> want_bound; step want_step)` (step placed as want_where)"""
     rule = "E14.level-range"
     loop = loop_of(view, event_ids)
     sh = for_shape(view, loop)
@@ -252,10 +301,28 @@ def check_level_loop(ck, view, inst, event_ids, want_init, want_op, want_bound, 
     if init is None or bound is None:
         ck.incomplete(rule, "%s: loop bounds %s / %s are not level expressions" % (inst, render(sh["init"]), render(sh["cond"][1])))
         return None
-    got = "%s = %s; %s %s %s; step %+d" % (nm, view.level_name(init), nm, sh["cond"][0], view.level_name(bound), sh["step"][0])
-    ok = init == want_init and sh["cond"][0] == want_op and bound == want_bound and sh["step"][0] == want_step
+    got = "%s = %s; %s %s %s; step %+d%s" % (nm, view.level_name(init), nm, sh["cond"][0], view.level_name(bound), sh["step"][0], " (first in the body)" if sh["step"][1] != "inc" else "")
+    where = "inc" if sh["step"][1] == "inc" else "body"
+    gv = visited_levels(init, sh["cond"][0], bound, sh["step"][0], where)
+    wv = visited_levels(want_init, want_op, want_bound, want_step, "inc" if want_where == "inc" else "body")
+    if gv is None:
+        ck.incomplete(rule, "%s: level loop %s: condition / step combination not modelled" % (inst, got))
+        return None
+    # the levels worked on are (loop variable + base), (loop variable + base + 1): `for(ii = last; ii > cur; --ii) { i = ii - 1; ...`
+    # visits the fine levels ii-1
+    offs = event_level_offsets(evlist, sh["d"])
+    base = min(offs) if offs else 0
+    if offs - {base, base + 1}:
+        ck.incomplete(rule, "%s: level loop %s works on the levels %s of its variable (expected a fine level and the next coarser one)" % (inst, got, sorted(offs)))
+        return None
+    if base:
+        gv = (gv[0][:-1] + (gv[0][-1] + base,), gv[1][:-1] + (gv[1][-1] + base,), gv[2])
+        got += "; fine level = %s%+d" % (nm, base)
+    sh["base"] = base
+    ok = gv == wv
     why = ""
     if not ok:
+        why = "; it visits the levels %s .. %s %s, documented %s .. %s %s" % (view.level_name(gv[0]), view.level_name(gv[1]), gv[2], view.level_name(wv[0]), view.level_name(wv[1]), wv[2])
         for nm2, g, w in (("start", init, want_init), ("bound", bound, want_bound)):
             if g != w and g[0] == "abs":
                 why += "; the %s is the constant level %d instead of %s: for a level sub-range with top_level > %d levels outside [top, last] of this multigrid are visited" % (
@@ -263,6 +330,43 @@ def check_level_loop(ck, view, inst, event_ids, want_init, want_op, want_bound, 
     ck.ob(rule, inst, ok, "%s: %s (documented: %s)%s" % ("level loop" if ok else "level loop differs", got, what, why), view.fn.file, loop.get("l"),
           sample={"loop": got, "documented": what})
     return sh
+
+
+def pow2_form(view, n):
+    """(hi level, lo level, constant c) if n == (1 << (hi - lo)) + c, through named constants; else None"""
+    n = view.value(n)
+    if n.get("k") == "Bin" and n.get("op") in ("+", "-") and view.value(n["rhs"]).get("k") == "Int":
+        r = pow2_form(view, n["lhs"])
+        if r is not None:
+            return r[0], r[1], r[2] + int(view.value(n["rhs"])["v"]) * (1 if n["op"] == "+" else -1)
+        return None
+    if n.get("k") == "Bin" and n.get("op") == "<<" and view.value(n["lhs"]).get("k") == "Int" and int(view.value(n["lhs"])["v"]) == 1:
+        ex = view.value(n["rhs"])
+        if ex.get("k") == "Bin" and ex.get("op") == "-":
+            hi, lo = view.level(ex["lhs"]), view.level(ex["rhs"])
+            if hi is not None and lo is not None:
+                return hi, lo, 0
+    return None
+
+
+def w_iterations(view, sh):
+    """number of iterations of a counting loop as (hi, lo, c): (1 << (hi - lo)) + c; None if not of that form.
+    for(c = a; c < N; ++c), c <= N-1, c != N, for(c = N-1; c > 0; --c), ... are compared by their iteration count."""
+    if sh is None or sh["cond"] is None or sh["step"] is None or sh["init"] is None or sh["step"][1] == "mid" or abs(sh["step"][0]) != 1:
+        return None
+    op, st = sh["cond"][0], sh["step"][0]
+    a, n = view.value(sh["init"]), view.value(sh["cond"][1])
+    if st == 1 and op in ("<", "<=", "!=") and a.get("k") == "Int":
+        p2 = pow2_form(view, n)
+        if p2 is None:
+            return None
+        return p2[0], p2[1], p2[2] - int(a["v"]) + (1 if op == "<=" else 0)
+    if st == -1 and op in (">", ">=", "!=") and n.get("k") == "Int":
+        p2 = pow2_form(view, a)
+        if p2 is None:
+            return None
+        return p2[0], p2[1], p2[2] - int(n["v"]) + (1 if op == ">=" else 0)
+    return None
 
 
 def check_w_count(ck, view, inst, event_ids, top=("top", 0)):
@@ -273,21 +377,16 @@ def check_w_count(ck, view, inst, event_ids, top=("top", 0)):
     if sh is None or sh["cond"] is None or sh["step"] is None or sh["init"] is None:
         ck.incomplete(rule, "%s: the W-cycle loop is not a counting for-loop (found %s)" % (inst, render(loop) if loop else "no loop"))
         return
-    a = view.value(sh["init"])
-    n = view.value(sh["cond"][1])
-    if a.get("k") != "Int" or not (n.get("k") == "Bin" and n.get("op") == "<<"):
-        ck.incomplete(rule, "%s: W-cycle loop bounds %s .. %s not of the form const .. (1 << (last-top))" % (inst, render(a), render(n)))
+    it = w_iterations(view, sh)
+    if it is None:
+        ck.incomplete(rule, "%s: W-cycle loop `%s = %s; %s %s %s; step %+d`: iteration count not of the form (1 << (last-top)) + const" % (
+            inst, sh["var"]["n"], render(sh["init"]), sh["var"]["n"], sh["cond"][0], render(sh["cond"][1]), sh["step"][0]))
         return
-    one = view.value(n["lhs"])
-    ex = view.value(n["rhs"])
-    hi = lo = None
-    if ex.get("k") == "Bin" and ex.get("op") == "-":
-        hi, lo = view.level(ex["lhs"]), view.level(ex["rhs"])
-    if one.get("k") != "Int" or hi is None or lo is None:
-        ck.incomplete(rule, "%s: W-cycle iteration count %s not of the form 1 << (last-top)" % (inst, render(n)))
-        return
-    got = "c = %s; c %s (%s << (%s - %s)); step %+d" % (a["v"], sh["cond"][0], one["v"], view.level_name(hi), view.level_name(lo), sh["step"][0])
-    ok = int(a["v"]) == 1 and int(one["v"]) == 1 and sh["cond"][0] == "<" and hi == ("last", 0) and lo == top and sh["step"][0] == 1
+    hi, lo, c = it
+    got = "%s = %s; %s %s %s; step %+d: (1 << (%s - %s))%+d iterations" % (sh["var"]["n"], render(view.value(sh["init"])), sh["var"]["n"], sh["cond"][0], render(view.value(sh["cond"][1])),
+                                                                         sh["step"][0], view.level_name(hi), view.level_name(lo), c)
+    got = re.sub(r"FEAT::Index|std::size_t|unsigned long|int\b", "", got)
+    ok = hi == ("last", 0) and lo == top and c == -1
     ck.ob(rule, inst, ok, "%s: %s (documented: %s)" % ("W-cycle loop" if ok else "W-cycle loop differs", got, what), view.fn.file, loop.get("l"),
           sample={"loop": got})
 
@@ -355,18 +454,9 @@ def enclosing(view, node, kinds):
 
 
 def is_w_count_loop(view, loop):
-    """for(c = a; c < (1 << (last - top)); ++c) with a >= 1: an iteration implies last > top"""
-    sh = for_shape(view, loop)
-    if sh is None or sh["cond"] is None or sh["step"] is None or sh["init"] is None:
-        return False
-    a = view.value(sh["init"])
-    n = view.value(sh["cond"][1])
-    if a.get("k") != "Int" or int(a["v"]) < 1 or sh["cond"][0] != "<" or sh["step"][0] != 1:
-        return False
-    if not (n.get("k") == "Bin" and n.get("op") == "<<" and view.value(n["lhs"]).get("k") == "Int" and int(view.value(n["lhs"])["v"]) == 1):
-        return False
-    ex = view.value(n["rhs"])
-    return ex.get("k") == "Bin" and ex.get("op") == "-" and view.level(ex["lhs"]) == ("last", 0) and view.level(ex["rhs"]) == ("top", 0)
+    """a counting loop with at most (1 << (last - top)) - 1 iterations: an iteration implies last > top"""
+    it = w_iterations(view, for_shape(view, loop))
+    return it is not None and it[0] == ("last", 0) and it[1] == ("top", 0) and it[2] <= -1
 
 
 def lin_min(a, b, gap):
@@ -569,6 +659,15 @@ def check_w_counters(ck, view, inst, inner_event_ids):
     for n in walk(view.fn.body):
         if n.get("k") == "OpCall" and n.get("op") == "[]" and len(n.get("a", [])) == 2 and mgmodel.is_this_member(n["a"][0], "_counters"):
             subs.append(n)
+        elif n.get("k") == "MCall" and n.get("n") == "at" and len(n.get("a", [])) == 1 and mgmodel.is_this_member(n.get("obj") or {}, "_counters"):
+            # _counters.at(i): the same subscript (normalised to the operator[] shape)
+            subs.append({"k": "OpCall", "op": "[]", "i": n["i"], "l": n.get("l"), "a": [n["obj"], n["a"][0]], "at": n})
+    opaque = [n for n in walk(view.fn.body) if n.get("k") == "MCall" and (n.get("obj") is None or strip(n["obj"]).get("k") == "This")
+              and n.get("n") not in mgmodel.HELPERS and n.get("n") != "name" and not n.get("cconst")]
+    if opaque:
+        # a member function that could not be inlined may reset / walk the counters itself
+        ck.incomplete(rule, "%s: call of the member function %s() (line %s), whose effect on _counters is not modelled" % (inst, opaque[0].get("n"), opaque[0].get("l")))
+        return
     if not subs:
         ck.incomplete(rule, "%s: no subscript of _counters found" % inst)
         return
@@ -597,7 +696,7 @@ def check_w_counters(ck, view, inst, inner_event_ids):
         while par is not None and par.get("k") == "Cast":
             par = view.parent.get(par["i"])
         kind = "read"
-        if par is not None and par.get("k") == "Assign" and strip(par["lhs"]) is n:
+        if par is not None and par.get("k") == "Assign" and strip(par["lhs"]).get("i") == n["i"]:
             z = view.value(par["rhs"])
             kind = "zero" if (par.get("op") == "=" and z.get("k") == "Int" and int(z["v"]) == 0) else "write"
         elif par is not None and par.get("k") == "Un" and par.get("op") in ("++", "--"):
@@ -836,7 +935,11 @@ def check_level_setup(ck, facts, hier_cls, fns_h, sc):
     pushes = [f for f in facts.functions if f.tk != "pattern" and f.cls == hier_cls and f.name == "push_level" and len(f.params) >= 3]
     if not pushes:
         ck.incomplete(rule, "%s: no push_level(matrix, filter, ...) overload instantiated" % sc)
+    inl = norm_c08.Inliner(facts)
     for f in sorted(pushes, key=lambda f: len(f.params)):
+        nparams = len(f.params)
+        # an overload that forwards to its sibling (or builds the level in a helper) is analysed with that callee inlined
+        f = inl.inline(f, want=lambda call, cal: not (cal.name == "push_level" and len(cal.params) < 3))
         view = FnView(f)
         sites = []
         for n in walk(f.body):
@@ -845,7 +948,7 @@ def check_level_setup(ck, facts, hier_cls, fns_h, sc):
             elif n.get("k") in ("Construct", "New", "TempObj") and "MultiGridLevelStd" in (n.get("ccls") or n.get("callee") or ""):
                 if n.get("a") and len(n.get("a")) >= 3:
                     sites.append((n, n.get("pn")))
-        inst = "%s::push_level/%d" % (sc.replace("MultiGrid<", "MultiGridHierarchy<"), len(f.params))
+        inst = "%s::push_level/%d" % (sc.replace("MultiGrid<", "MultiGridHierarchy<"), nparams)
         if not sites:
             ck.incomplete(rule, "%s: construction of the MultiGridLevelStd object not found (make_shared / new)" % inst)
             continue
@@ -916,8 +1019,16 @@ def check_solver_registration(ck, facts, hier_cls, used_kinds, sc):
     if "init_symbolic" not in fns:
         ck.incomplete(rule, "%s: init_symbolic not instantiated" % inst)
         return
+    inl = norm_c08.Inliner(facts)
+    keep = lambda call, cal: cal.name not in ("_push_solver", "init_symbolic", "init_numeric", "done_numeric", "done_symbolic")
+    fns = {nm: inl.inline(g, want=keep) for nm, g in fns.items()}
     f = fns["init_symbolic"]
     view = FnView(f)
+    # `if(ptr) _push_solver(ptr);` repeats _push_solver's own `if(solver == nullptr) return;`: not a conditional registration
+    g = norm_c08.callee_guarded_ifs(view, inl.bydecl)
+    if g:
+        f = norm_c08.without_skip_edges(f, view, set(g))
+        view = FnView(f)
 
     def getter_kind(n, depth=0):
         n = view.value(n)
@@ -955,6 +1066,14 @@ def check_solver_registration(ck, facts, hier_cls, used_kinds, sc):
         if escapes and unresolved:
             ck.incomplete(rule, "%s: registration of the %s solver not found on every path, but %s registers a solver that could not be resolved to a getter" % (key, kind, unresolved[0]))
             continue
+        opaque = [n2 for n2 in walk(f.body) if n2.get("k") == "MCall" and (n2.get("obj") is None or strip(n2["obj"]).get("k") == "This")
+                  and n2.get("n") != "_push_solver" and not n2.get("cconst")]
+        opaque += [n2 for n2 in walk(f.body) if n2.get("k") in ("Call", "MCall") and n2.get("n") not in ("clear", "push_back", "emplace_back", "insert", "begin", "end", "rbegin", "rend", "size", "empty")
+                   and any(mgmodel.is_this_member(x, "unique_solvers") for a_ in ([n2.get("obj")] + list(n2.get("a", []))) if a_ is not None for x in walk(a_))]
+        if escapes and opaque:
+            ck.incomplete(rule, "%s: registration of the %s solver not found on every path, but init_symbolic() calls %s (line %s), which is not modelled and may register it" % (
+                key, kind, opaque[0].get("n") or opaque[0].get("callee"), opaque[0].get("l")))
+            continue
         ck.ob(rule, key, not escapes,
               "the %s solver of the level is registered in unique_solvers on every path" % kind if not escapes else
               ("the %s solver is registered only on some paths of init_symbolic() (conditionally on the level), but the multigrid helpers apply get_%s of whatever level plays that role: "
@@ -970,11 +1089,14 @@ def check_solver_registration(ck, facts, hier_cls, used_kinds, sc):
         gv = FnView(g)
         found = wrong = None
         for lp in walk(g.body):
-            if lp.get("k") not in ("For", "ForRange", "While"):
+            is_for_each = lp.get("k") == "Call" and (lp.get("callee") or "").rsplit("::", 1)[-1] == "for_each" and (lp.get("callee") or "").startswith("std::")
+            if lp.get("k") not in ("For", "ForRange", "While") and not is_for_each:
                 continue
             if not any(mgmodel.is_this_member(x, "unique_solvers") for x in walk(lp) if x.get("k") == "Member"):
                 continue
-            for x in walk(lp.get("body") or {}):
+            # std::for_each(unique_solvers.begin(), unique_solvers.end(), [](SolverType* s) { s->f(); }) is the loop it stands for
+            lbody = lp.get("body") if not is_for_each else {"k": "Block", "s": [x for a_ in lp.get("a", [])[2:] for x in walk(a_) if x.get("k") == "Lambda"]}
+            for x in walk(lbody or {}):
                 if x.get("k") == "MCall" and x.get("obj") is not None and strip(x["obj"]).get("k") != "This" and x.get("n") in ("init_symbolic", "init_numeric", "done_numeric", "done_symbolic"):
                     if x["n"] == nm:
                         found = x
@@ -996,42 +1118,38 @@ def check_apply(ck, view, inst):
     evs = [(e, classify(view, e)) for b in view.cfg.blocks.values() for e in b["el"]]
     evs = [(e, ev) for e, ev in evs if ev]
     cyc_calls = [(e, ev) for e, ev in evs if ev["kind"] == "helper" and ev["helper"] in CYCLES]
-    # dispatch
+    # dispatch: the modes of _cycle under which each cycle call executes (switch cases, if / else-if chains, negated or
+    # combined conditions, ternaries are one decision table: norm_c08.contexts / enum_values)
+    is_sel = lambda x: mgmodel.is_this_member(x, "_cycle")
+    modes = set(CYCLES.values())
+    by_mode = {}
+    undecided = False
     for e, ev in cyc_calls:
-        b = view.pos(e)[0]
-        lab = view.cfg.blocks[b].get("label")
-        case = view.byid.get(lab) if lab is not None else None
-        want = CYCLES[ev["helper"]]
-        sw = None
-        p = case
-        while p is not None and p.get("k") != "Switch":
-            p = view.parent.get(p.get("i"))
-        sw = p
-        got = None
-        if case is not None and case.get("k") == "Case" and sw is not None and mgmodel.is_this_member(view.value(sw.get("c")), "_cycle"):
-            cv = strip(case.get("v") or {})
-            got = cv.get("qn", cv.get("n", "?")).rsplit("::", 1)[-1]
-        else:
-            # if / else-if chain: the call sits in the then-branch of `_cycle == MultiGridCycle::X`
-            q = view.parent.get(ev["n"]["i"])
-            child = ev["n"]
-            while q is not None and got is None:
-                if q.get("k") == "If" and q.get("then") is not None and child.get("i") in {x.get("i") for x in walk(q["then"])}:
-                    c = strip(q.get("c") or {})
-                    if c.get("k") == "Bin" and c.get("op") == "==":
-                        for x, y in ((c["lhs"], c["rhs"]), (c["rhs"], c["lhs"])):
-                            yv = view.value(y)
-                            if mgmodel.is_this_member(view.value(x), "_cycle") and yv.get("k") == "Ref" and yv.get("dk") == "enum":
-                                got = yv.get("qn", yv.get("n", "?")).rsplit("::", 1)[-1]
-                    if got is None:
-                        break
-                child, q = q, view.parent.get(q.get("i"))
-        if got is None:
-            ck.incomplete("E13.cycle-dispatch", "%s: call of %s is neither under a case label of switch(_cycle) nor in the then-branch of `_cycle == MultiGridCycle::X`" % (inst, ev["helper"]))
-            continue
-        others = [x for x, y in cyc_calls if x != e and view.pos(x)[0] == b]
-        ck.ob("E13.cycle-dispatch", "%s/case %s" % (inst, got), got == want and not others,
-              "case MultiGridCycle::%s calls %s" % (got, ev["helper"]), view.fn.file, ev["n"].get("l"))
+        vals = set()
+        for alt in norm_c08.contexts(view, ev["n"]):
+            v_ = norm_c08.enum_values(view, is_sel, alt, modes)
+            if v_ is None:
+                ck.incomplete("E13.cycle-dispatch", "%s: the condition under which %s is called is not a comparison of _cycle with an enumerator of MultiGridCycle" % (inst, ev["helper"]))
+                undecided = True
+                v_ = set()
+            vals |= v_
+        if not undecided and vals == modes and not any(is_sel(x) for x in walk(view.fn.body) if x.get("k") == "Member"):
+            ck.incomplete("E13.cycle-dispatch", "%s: call of %s does not depend on _cycle" % (inst, ev["helper"]))
+            undecided = True
+        for m in vals:
+            by_mode.setdefault(m, []).append(ev)
+    if not undecided:
+        for m in sorted(modes - set(by_mode)):
+            if any(ev2["kind"] == "unknown" for e2, ev2 in evs):
+                ck.incomplete("E13.cycle-dispatch", "%s: no cycle function is called for MultiGridCycle::%s, but apply() contains a call that is not modelled" % (inst, m))
+            else:
+                ck.ob("E13.cycle-dispatch", "%s/case %s" % (inst, m), False, "no cycle function is called for MultiGridCycle::%s" % m, view.fn.file, view.fn.line)
+        for m in sorted(by_mode):
+            evs_m = by_mode[m]
+            got = sorted({x["helper"] for x in evs_m})
+            want = [h for h, c in CYCLES.items() if c == m]
+            ck.ob("E13.cycle-dispatch", "%s/case %s" % (inst, m), got == want and len(evs_m) == 1,
+                  "MultiGridCycle::%s calls %s" % (m, ", ".join(x["helper"] for x in evs_m)), view.fn.file, evs_m[0]["n"].get("l"))
     # hand-over
     rhs_in = [e for e, ev in evs if ev["kind"] == "copy" and vec(ev["dst"], "rhs") and ev["dst"][1] == ("top", 0) and ev["src"] == ("param", "vec_def")]
     cor_out = [e for e, ev in evs if ev["kind"] == "copy" and ev["dst"] == ("param", "vec_cor") and vec(ev["src"], "sol") and ev["src"][1] == ("top", 0)]
@@ -1106,6 +1224,12 @@ def check_peak_fallback(ck, view, inst):
         while a.get("k") == "Un" and a.get("op") == "!":
             neg = not neg
             a = strip(a["e"])
+        if a.get("k") == "Ref" and a.get("dk") == "local" and view.is_const_local(a["d"]):
+            r = nonnull_atom(view.locals[a["d"]]["init"])      # const bool have_peak = bool(smoother_peak);
+            return (r[0], r[1] != neg) if r else None
+        if a.get("k") in ("Construct", "TempObj") and len(a.get("a", [])) == 1:
+            r = nonnull_atom(a["a"][0])
+            return (r[0], r[1] != neg) if r else None
         if a.get("k") == "MCall" and a.get("n") == "operator bool":
             o = view.obj(a.get("obj"))
             if o and o[0] == "smo":
@@ -1386,7 +1510,7 @@ def run(tier):
                 continue
             if key == "F":
                 sh = check_level_loop(ck, v, "%s::%s" % (sc, fnm), inner, ("last", -1), ">", ("top", 0), -1,
-                                      "for(p = last-1; p > top; --p) — every intermediate level in ascending order")
+                                      "for(p = last-1; p > top; --p) — every intermediate level in ascending order", evlist=events[fnm])
                 if sh is not None and sh["d"] != pvars[fnm]:
                     ck.ob("E14.level-range", "%s::%s/loop-var" % (sc, fnm), False, "the peak level passed to the helpers is not the loop variable", v.fn.file, v.fn.line)
             else:
@@ -1397,18 +1521,24 @@ def run(tier):
             lev = [e for e, ev in events[fnm] if ev["kind"] not in ("helper", "unknown")]
             p0 = v.fn.params[0]["d"] if v.fn.params else None
             if fnm == "_apply_rest":
-                check_level_loop(ck, v, "%s::%s" % (sc, fnm), lev, ("v", p0, 0), "<", ("last", 0), +1, "for(i = cur_lvl; i < last; ++i)")
+                check_level_loop(ck, v, "%s::%s" % (sc, fnm), lev, ("v", p0, 0), "<", ("last", 0), +1, "for(i = cur_lvl; i < last; ++i)", evlist=events[fnm])
             else:
-                sh = check_level_loop(ck, v, "%s::%s" % (sc, fnm), lev, ("last", 0), ">", ("v", p0, 0), -1, "for(i = last; i > cur_lvl;) { --i; ... }")
+                sh = check_level_loop(ck, v, "%s::%s" % (sc, fnm), lev, ("last", 0), ">", ("v", p0, 0), -1, "for(i = last; i > cur_lvl;) { --i; ... }", want_where="body", evlist=events[fnm])
                 if sh is not None and sh["step"] is not None:
                     w = sh["step"][2]
-                    # level objects captured in locals must be captured after the decrement as well
-                    caps = [v.decl_stmt[d] for d, var in v.locals.items() if var.get("init") is not None and d in v.decl_stmt
-                            and any(x.get("k") == "Ref" and x.get("d") == sh["d"] for x in walk(var["init"]))]
-                    late = [e for e in lev + caps if not v.cfg.stmt_dominates(w["i"], e)]
-                    if sh["step"][1] == "inc" or late:
+                    if sh["step"][1] != "inc":
+                        # decrement first in the body: level objects captured in locals must be captured after the decrement
+                        caps = [v.decl_stmt[d] for d, var in v.locals.items() if var.get("init") is not None and d in v.decl_stmt
+                                and any(x.get("k") == "Ref" and x.get("d") == sh["d"] for x in walk(var["init"]))]
+                        late = [e for e in lev + caps if not v.cfg.stmt_dominates(w["i"], e)]
+                        if late:
+                            ck.ob("E14.level-range", "%s::%s/decrement-first" % (sc, fnm), False,
+                                  "the level index is not decremented before the level objects of the iteration are used (line %s)" % v.byid[late[0]].get("l"), v.fn.file, w.get("l"))
+                    elif sh["cond"][0] == ">=":
+                        # for(i = last-1; i >= cur_lvl; --i) over an unsigned index never terminates for cur_lvl == 0
                         ck.ob("E14.level-range", "%s::%s/decrement-first" % (sc, fnm), False,
-                              "the level index is not decremented before the level objects of the iteration are used (line %s)" % (v.byid[late[0]].get("l") if late else w.get("l")), v.fn.file, w.get("l"))
+                              "descending loop `%s >= %s; --%s` over the unsigned level index: the condition cannot become false for %s == 0 (decrement first in the body, or loop over index + 1 with `>`)" % (
+                                  sh["var"]["n"], render(sh["cond"][1]), sh["var"]["n"], render(sh["cond"][1])), v.fn.file, w.get("l"))
         # 2. apply(): dispatch, hand-over
         check_apply(ck, views["apply"], "%s::apply" % sc)
         # 3. roles
